@@ -741,6 +741,10 @@ func checkRootsAs(r *Report, m *spModel, sr *sigRoles, rule string) {
 						continue
 					}
 					for _, l2 := range rootLeaves(Resolve(ret.Results[x.Index]), map[ssa.Value]bool{}) {
+						// `return fail(err)`: a helper (also a local function literal) that hands back no certificates at all
+						if alwaysNilResult(l2) {
+							continue
+						}
 						sub = append(sub, l2)
 						if ex, ok := l2.(*ssa.Extract); ok {
 							if c2, ok := ex.Tuple.(*ssa.Call); ok {
@@ -1713,4 +1717,29 @@ func checkUnmarshalBytes(r *Report, p *Prog, sr *sigRoles, rule string) {
 		}
 	}
 	r.Check(n >= 1 && bad == "", rule, "the bytes unmarshalled are the verified element, copied and serialised unchanged", "-", fmt.Sprintf("%d functions between the verified element and xml.Unmarshal; none edits the copy's content", n), "the copy that is serialised for xml.Unmarshal is edited first ("+bad+"): the object returned is then not the content that was signed (a value made of white space only is deleted by Unindent/Indent, for instance)")
+}
+
+// alwaysNilResult: v is result k of a call of a module function every return of which yields the nil constant for
+// result k (an error-wrapping helper of the form func(err error) (T, error) { return nil, wrap(err) }).
+func alwaysNilResult(v ssa.Value) bool {
+	ex, ok := v.(*ssa.Extract)
+	if !ok {
+		return false
+	}
+	c, ok := ex.Tuple.(*ssa.Call)
+	if !ok {
+		return false
+	}
+	sc := c.Call.StaticCallee()
+	if sc == nil || len(sc.Blocks) == 0 {
+		return false
+	}
+	n := 0
+	for _, ret := range returnsOf(sc) {
+		if ex.Index >= len(ret.Results) || !isNilConst(Resolve(ret.Results[ex.Index])) {
+			return false
+		}
+		n++
+	}
+	return n > 0
 }
